@@ -11,10 +11,12 @@
 (* both full descriptors as detail.                                          *)
 EXTENDS CodecOps, TraceKit
 
-VARIABLES l, viol, cnt, dom
+\* (the position variable must not be called l: a variable l makes TLC treat every definition of an
+\* extended module that has a bound identifier l as state-dependent, i.e. re-evaluate it at each use)
+VARIABLES pos, viol, cnt, dom
 
 V(pred, e, sig, detail) ==
-  [prop |-> "C17", pred |-> pred, trace |-> e.t, line |-> l, sig |-> pred \o ":" \o sig, detail |-> detail]
+  [prop |-> "C17", pred |-> pred, trace |-> e.t, line |-> pos, sig |-> pred \o ":" \o sig, detail |-> detail]
 
 PairViol(e, pred, good) ==
   { V(pred, e, dom.cls[e.a] \o "~" \o dom.cls[e.bs[k]],
@@ -23,11 +25,11 @@ PairViol(e, pred, good) ==
 
 Add(c, name, n) == [x \in (DOMAIN c) \cup {name} |-> (IF x \in DOMAIN c THEN c[x] ELSE 0) + (IF x = name THEN n ELSE 0)]
 
-Init == l = 1 /\ viol = {} /\ cnt = EmptyCount /\ dom = [sigs |-> <<>>, cls |-> <<>>]
+Init == pos = 1 /\ viol = {} /\ cnt = EmptyCount /\ dom = [sigs |-> <<>>, cls |-> <<>>]
 
 Step ==
-  /\ l <= Len(Trace)
-  /\ LET e == Trace[l] IN
+  /\ pos <= Len(Trace)
+  /\ LET e == Trace[pos] IN
        CASE e.ev = "domain" ->
               /\ dom' = [sigs |-> e.sigs, cls |-> e.cls]
               /\ UNCHANGED <<viol, cnt>>
@@ -43,9 +45,9 @@ Step ==
               /\ cnt' = Add(cnt, "DefaultsSelfMatch", 1)
               /\ UNCHANGED dom
          [] OTHER -> UNCHANGED <<viol, cnt, dom>>
-  /\ l' = l + 1
+  /\ pos' = pos + 1
 
-Done == l = Len(Trace) + 1 /\ UNCHANGED <<l, viol, cnt, dom>>
+Done == pos = Len(Trace) + 1 /\ UNCHANGED <<pos, viol, cnt, dom>>
 Next == Step \/ Done
-Rep  == Report(l, viol, cnt)
+Rep  == Report(pos, viol, cnt)
 =============================================================================
